@@ -1361,9 +1361,14 @@ def decode_fmt(body, cs):
     return Fmt(cs, pieces)
 
 
-def fmt_sites(body):
+LOG_MACROS = ('log', 'info', 'debug', 'trace', 'warn', 'error', '$crate::log')
+
+
+def fmt_sites(body, include_log=False):
     out = []
     for cs in body.calls:
+        if not include_log and any(m in LOG_MACROS for m in cs.macros):
+            continue
         if cs.is_('~fmt::Arguments::<.*>::(new|from_str|from_str_nonconst|new_const)$', '~fmt::Arguments::(new|from_str|from_str_nonconst)$'):
             out.append(decode_fmt(body, cs))
     return out
